@@ -272,7 +272,7 @@ def install_hooks(ex, cx):
             pos = ex.as_int(ex.ev(node.args[1], st))
             ex.safety(st, 'matcher-pos-in-range', node, And(0 <= pos, pos <= N))
             ok = re_ok(fv.pid, pos)
-            st.assume(Implies(ok, And(pos <= re_end(fv.pid, pos), re_end(fv.pid, pos) <= N)))
+            st.assume(Implies(ok, And(pos <= re_end(fv.pid, pos), re_end(fv.pid, pos) <= N, reach(re_end(fv.pid, pos)))))
             return Opaque('match', pid=fv.pid, pos=pos, truth=ok)
         if isinstance(fv, z3.ExprRef) and fv.sort() == Val:
             # user callable (predicate / |> function): pure, total, one argument
